@@ -74,6 +74,35 @@ def main(tier):
                      "corpus program %d behaves differently under GC schedule %s: event %d without collection %s, with %s; stale uses: %s\n%s"
                      % (i, sched_label(s), k, [x[:80] for x in e[k:k + 1]], [x[:80] for x in a[k:k + 1]], got[i].get("stale"), b[:600]))
     log("natives corpus: %d programs x %d schedules, %d identical to the run without collection" % (len(bodies), len(scheds), corpus_ok))
+    # ---- suspension + collection: synchronous frames (constructors, call chains, methods, callbacks) hold fresh objects in
+    # registers and locals while a callee blocks on order(); under every GC schedule and with the answers deferred the result
+    # must be the one of the run that never suspends and never collects
+    import c07
+    tw_ok = 0
+    for tag, (body, answers) in c07.TWINS.items():
+        # each frame also keeps a fresh object alive across the suspension
+        real = 'import { LOG, ERR } from "verif:host";\nimport { order } from "tsrun:host";\ntry {\n' + body + '\n} catch (e) { ERR(e); }\n'
+        twin = 'import { LOG, ERR } from "verif:host";\nconst order = (p: any): any => p.v;\ntry {\n' + body + '\n} catch (e) { ERR(e); }\n'
+        resp = [{"k": "val", "v": a} for a in answers]
+        tj = [{"id": 0, "source": twin, "resp": [], "mode": "immediate", "path": "/p/main.ts", "max_steps": 200000, "gc": 0}]
+        for si, sc in enumerate(scheds):
+            for mi, mode in enumerate(("deferred", "spurious")):
+                j = {"id": 1 + si * 2 + mi, "source": real, "resp": resp, "mode": mode, "path": "/p/main.ts", "max_steps": 200000}; j.update(sc); tj.append(j)
+        tg = M.run_jobs(exe, "prog", tj)
+        want = [e for e in M.impl_events(tg[0]) if not e.startswith("O|")]
+        base_real = None
+        for j in tj[1:]:
+            runs_total += 1
+            ev = [e for e in M.impl_events(tg[j["id"]]) if not e.startswith("O|")]
+            # suspension itself may already deviate (C07's findings): the reference is then the real-order run at the mildest schedule
+            if base_real is None: base_real = ev
+            ref = want if base_real == want else base_real
+            if ev == ref and not tg[j["id"]].get("stale"): tw_ok += 1; continue
+            if tg[j["id"]].get("stale"): stale_total += 1
+            c.report({"kind": "gc-schedule", "schedule": sched_label({k: j[k] for k in ("gc", "collect_every") if k in j}), "twin": tag},
+                     {"source": real, "mode": j["mode"], "schedule": {k: j[k] for k in ("gc", "collect_every") if k in j}, "expected": ref, "got": ev, "stale": tg[j["id"]].get("stale")},
+                     "suspended frames lose objects under GC: [%s] schedule %s mode %s: expected %s, got %s; stale uses: %s" % (tag, sched_label({k: j[k] for k in ("gc", "collect_every") if k in j}), j["mode"], ref, ev, tg[j["id"]].get("stale")))
+    log("suspension twins: %d templates x %d schedules x 2 host modes, %d identical" % (len(c07.TWINS), len(scheds), tw_ok))
     # ---- thorough: the repository's own tests as stale-handle detectors
     if not quick:
         env = dict(os.environ, RUSTFLAGS="--cfg tsrun_verif", TSRUN_VERIF_PANIC_ON_STALE="1", CARGO_NET_OFFLINE="true")
